@@ -10,11 +10,14 @@
   checksum; for the legacy format every valid version-2 header and every list of well-formed
   blocks whose first entry is the `__swamp_meta__` metadata entry.
 
-  Not covered by a theorem here: files rewritten by compaction (C03's model; `compaction_keeps_name`
-  is its obligation) — the statement below is therefore the writer/appender part of C29
-  (`Holds` = fresh + appended, V3 and V2), and compaction is exercised by C03.
+  Compaction is modelled on the same byte-level writer (`compactSt`: LoadIndex, fresh V3 file under
+  the loaded name, one INSERT per live key, close, replace): `compacted` / `compactedV2` state that
+  the compacted file answers the same name (legacy files become V3 carrying the metadata name).
+  The crash-safety of the replacement (temp file, rename) is C03's subject.
 -/
 import Hv.Storage.NameLemmas
+import Hv.Storage.CompactLemmas
+import Hv.Storage.Listing
 import Hv.Basic.Verdict
 
 namespace Hv.C29
@@ -33,6 +36,19 @@ structure Holds (cfg : Cfg) : Prop where
     blocks.flatten = ⟨opMetadata, metadataKey, nm⟩ :: rest → nm ≠ [] →
     Params cfg bs → WritesOK cfg ops →
     readSwampName cfg codec.toDecoder crc (runOps cfg codec crc bs (legacyState codec crc hdr blocks) ops).file = .ok nm
+  /-- …and after compaction of the closed file -/
+  compacted : ∀ (codec : Codec) (crc : Checksum) (bs : Nat) (name : Bytes) (now now' : Nat) (st : St) (ops : List Op),
+    createFileCfg cfg name now = some st → name ≠ [] → Params cfg bs → WritesOK cfg ops →
+    readSwampName cfg codec.toDecoder crc
+      (compactSt cfg codec crc bs now' (runOps cfg codec crc bs st (ops ++ [.close]))).1.file = .ok name
+  /-- a compacted legacy file is a V3 file carrying the metadata name -/
+  compactedV2 : ∀ (codec : Codec) (crc : Checksum) (bs : Nat) (hdr : FileHeader) (blocks : List (List Entry))
+      (nm : Bytes) (rest : List Entry) (ops : List Op) (now' : Nat),
+    hdr.Valid → hdr.version = 2 → (∀ b ∈ blocks, GoodBlock b) →
+    blocks.flatten = ⟨opMetadata, metadataKey, nm⟩ :: rest → nm ≠ [] → nm.length < 2 ^ 16 →
+    Params cfg bs → WritesOK cfg ops →
+    readSwampName cfg codec.toDecoder crc
+      (compactSt cfg codec crc bs now' (runOps cfg codec crc bs (legacyState codec crc hdr blocks) (ops ++ [.close]))).1.file = .ok nm
   /-- the explorer lists a file the engine wrote under exactly its name, iff the name has the
       three-part form; nothing else can appear for it -/
   listed : ∀ (codec : Codec) (crc : Checksum) (bs : Nat) (name : Bytes) (now : Nat) (st : St) (ops : List Op),
@@ -93,18 +109,64 @@ theorem name_roundtrip_v2_fallback (cfg : Cfg) (hf : cfg.v2Fallback = true) (cod
   rw [hload]
   simp [he, hfirst, metaName_cons nm _ hne]
 
+theorem openAfterAll_close (b : Bool) (ops : List Op) : openAfterAll b (ops ++ [.close]) = false := by
+  induction ops generalizing b with
+  | nil => rfl
+  | cons op ops ih => simp [openAfterAll, ih]
+
+theorem writesOK_close (cfg : Cfg) (ops : List Op) (h : WritesOK cfg ops) : WritesOK cfg (ops ++ [.close]) := by
+  intro e he ha
+  apply h e _ ha
+  have : ∀ l : List Op, writesOf (l ++ [.close]) = writesOf l := by
+    intro l; induction l with
+    | nil => rfl
+    | cons o l ih => cases o <;> simp [writesOf, ih]
+  rwa [this] at he
+
+theorem compacted_v3 (cfg : Cfg) (codec : Codec) (crc : Checksum) (bs : Nat) (name : Bytes) (now now' : Nat)
+    (hn : name.length < 2 ^ 16) (hne : name ≠ []) (hP : Params cfg bs) (ops : List Op) (hW : WritesOK cfg ops) :
+    readSwampName cfg codec.toDecoder crc
+      (compactSt cfg codec crc bs now' (runOps cfg codec crc bs (createFile name now) (ops ++ [.close]))).1.file = .ok name := by
+  have hI := runOps_inv cfg codec crc bs hP name (ops ++ [.close]) _ [] true
+    (createFile_inv cfg codec crc bs name now hn) (writesOK_close cfg ops hW)
+  rw [openAfterAll_close] at hI
+  have hemp : name.isEmpty = false := by cases name with | nil => exact absurd rfl hne | cons _ _ => rfl
+  have := (compaction_keeps_name cfg codec crc bs now' name _ _ hI (by simp [hemp]; exact hn)).2
+  simpa [hemp] using this
+
+theorem compacted_v2 (cfg : Cfg) (codec : Codec) (crc : Checksum) (bs : Nat)
+    (hdr : FileHeader) (blocks : List (List Entry)) (nm : Bytes) (rest : List Entry) (ops : List Op) (now' : Nat)
+    (hv : hdr.Valid) (h2 : hdr.version = 2) (hg : ∀ b ∈ blocks, GoodBlock b)
+    (hfirst : blocks.flatten = ⟨opMetadata, metadataKey, nm⟩ :: rest) (hne : nm ≠ []) (hlen : nm.length < 2 ^ 16)
+    (hP : Params cfg bs) (hW : WritesOK cfg ops) :
+    readSwampName cfg codec.toDecoder crc
+      (compactSt cfg codec crc bs now' (runOps cfg codec crc bs (legacyState codec crc hdr blocks) (ops ++ [.close]))).1.file = .ok nm := by
+  have hI := runOps_inv cfg codec crc bs hP [] (ops ++ [.close]) _ _ false
+    (legacyState_inv cfg codec crc bs hdr blocks hv h2 hg) (writesOK_close cfg ops hW)
+  rw [openAfterAll_close] at hI
+  have hm : metaName (blocks.flatten ++ accepted cfg false (ops ++ [.close])) = nm := by
+    rw [hfirst]; exact metaName_cons nm _ hne
+  have := (compaction_keeps_name cfg codec crc bs now' [] _ _ hI (by simp [hm]; exact hlen)).2
+  simpa [hm] using this
+
 def Good (cfg : Cfg) : Prop :=
   cfg.rejectsLongName = true ∧ cfg.v2Fallback = true
 
 theorem holds_of_good (cfg : Cfg) (hg : Good cfg) : Holds cfg := by
   obtain ⟨h1, h2⟩ := hg
-  refine ⟨?_, ?_, ?_⟩
+  refine ⟨?_, ?_, ?_, ?_, ?_⟩
   · intro codec crc bs name now st ops hc
     obtain ⟨hst, hn⟩ := createFileCfg_some cfg h1 name now st hc
     subst hst
     exact name_roundtrip_v3 cfg codec crc bs name now hn ops
   · intro codec crc bs hdr blocks nm rest ops hv hv2 hgb hfirst hne hP hW
     exact name_roundtrip_v2_fallback cfg h2 codec crc bs hdr blocks nm rest ops hv hv2 hgb hfirst hne hP hW
+  · intro codec crc bs name now now' st ops hc hne hP hW
+    obtain ⟨hst, hn⟩ := createFileCfg_some cfg h1 name now st hc
+    subst hst
+    exact compacted_v3 cfg codec crc bs name now now' hn hne hP ops hW
+  · intro codec crc bs hdr blocks nm rest ops now' hv hv2 hgb hfirst hne hlen hP hW
+    exact compacted_v2 cfg codec crc bs hdr blocks nm rest ops now' hv hv2 hgb hfirst hne hlen hP hW
   · intro codec crc bs name now st ops hc hne
     obtain ⟨hst, hn⟩ := createFileCfg_some cfg h1 name now st hc
     subst hst
@@ -121,6 +183,34 @@ def HoldsPartial (cfg : Cfg) : Prop :=
 theorem holds_partial (cfg : Cfg) : HoldsPartial cfg :=
   fun codec crc bs name now ops hn =>
     ⟨name_roundtrip_v3 cfg codec crc bs name now hn ops, fun hne => scan_v3 cfg codec crc bs name now hn hne ops⟩
+
+/-- **listing_exact**: a directory whose files were each written by the engine under some name
+    (non-empty, < 65536 bytes; any history, any number of files, duplicates allowed): the explorer's
+    index contains exactly the names that have the three-part form — each once, nothing else. -/
+theorem listing_exact (cfg : Cfg) (codec : Codec) (crc : Checksum) (bs : Nat) (dir : List (Bytes × Bytes))
+    (hw : ∀ p ∈ dir, p.2 ≠ [] ∧ p.2.length < 2 ^ 16 ∧
+      ∃ now ops, p.1 = (runOps cfg codec crc bs (createFile p.2 now) ops).file) :
+    (∀ n, n ∈ listing cfg codec.toDecoder crc (dir.map (·.1)) ↔ (n ∈ dir.map (·.2) ∧ splits3 n = true)) ∧
+    (listing cfg codec.toDecoder crc (dir.map (·.1))).Nodup := by
+  obtain ⟨hmem, hnd⟩ := listing_spec cfg codec.toDecoder crc (dir.map (·.1))
+  refine ⟨fun n => ?_, hnd⟩
+  rw [hmem n]
+  constructor
+  · rintro ⟨f, hf, hs⟩
+    obtain ⟨p, hp, rfl⟩ := List.mem_map.mp hf
+    obtain ⟨hne, hlen, now, ops, hfile⟩ := hw p hp
+    rw [hfile, scan_v3 cfg codec crc bs p.2 now hlen hne ops] at hs
+    by_cases h3 : splits3 p.2 = true
+    · simp only [h3, if_true, Option.some.injEq] at hs
+      subst hs
+      exact ⟨List.mem_map.mpr ⟨p, hp, rfl⟩, h3⟩
+    · simp [h3] at hs
+  · rintro ⟨hn, h3⟩
+    obtain ⟨p, hp, rfl⟩ := List.mem_map.mp hn
+    obtain ⟨hne, hlen, now, ops, hfile⟩ := hw p hp
+    refine ⟨p.1, List.mem_map.mpr ⟨p, hp, rfl⟩, ?_⟩
+    rw [hfile, scan_v3 cfg codec crc bs p.2 now hlen hne ops]
+    simp [h3]
 
 /-! non-vacuity -/
 example : Good goodCfg := ⟨rfl, rfl⟩
@@ -192,6 +282,11 @@ structure Facts where
   scanFallback : Tri
   scanSplits3 : Tri
   rejectsLongName : Tri
+  /-- `openExistingFile` starts a file over when it is shorter than header + name (a crash between
+      the two writes of `createNewFile`), so blocks are never appended inside the name area -/
+  openRecreatesShortFile : Tri
+  /-- `Explorer.Scan` clears the index before every directory walk -/
+  scanClearsIndex : Tri
   deriving Repr
 
 def cfgOf (f : Facts) : Cfg :=
@@ -200,14 +295,14 @@ def cfgOf (f : Facts) : Cfg :=
 def shapeOk (f : Facts) : Bool :=
   f.nameLenBytes == some 2 && f.writesNameAfterHeader == .yes && f.nameReadGuardedByV3 == .yes &&
   f.v2ZeroesNameLength == .yes && f.dataStartUsesNameLength == .yes && f.loadIndexMetaFallback == .yes &&
-  f.scanFallback == .yes && f.scanSplits3 == .yes
+  f.scanFallback == .yes && f.scanSplits3 == .yes && f.openRecreatesShortFile == .yes && f.scanClearsIndex == .yes
 
 def findings (f : Facts) : List String :=
   (if f.rejectsLongName == .no then ["C29-long-name-truncated"] else []) ++
   (if f.v2Fallback == .no then ["C29-no-v2-fallback"] else [])
 
 def classify (f : Facts) : Verdict :=
-  if !shapeOk f then .undetermined "name-area facts (NameLength width, V3 guard, DataStartOffset, metadata fallbacks, SplitN) differ from the model"
+  if !shapeOk f then .undetermined "name-area facts (NameLength width, V3 guard, DataStartOffset, metadata fallbacks, SplitN, short-file re-creation on open, index cleared per scan) differ from the model"
   else if f.rejectsLongName == .unknown || f.v2Fallback == .unknown then .undetermined "createNewFile / ReadSwampName pattern not recognised"
   else if !(findings f).isEmpty then .violated (findings f)
   else .holds
